@@ -805,7 +805,13 @@ def client_parse_problems(scenario, r):
                 elif kind == 'cards':
                     who = 'Dummy' if val[0] == 'Dummy' else be.FORMAL[val[0]]
                     hs, hv = Client.parse_hand(Client.parse_cards(line, who))
-                    ok = {be.CARD_IDX[c] for c in hs} == set(val[1]) and list(hv) == [1 if c in val[1] else 0 for c in range(52)]
+                    held = val[1]
+                    if isinstance(held, Any13):
+                        # a board dealt by the table manager: the hand that was sent is the one the log records for this seat
+                        names = [P.card_name(c) for c in range(52)]
+                        held = {names.index(x) for x in json.loads(r.output_text)['logs'][bi]['deal'][A.SEATS[val[0]]]}
+                        val = (val[0], held)
+                    ok = {be.CARD_IDX[c] for c in hs} == set(held) and list(hv) == [1 if c in held else 0 for c in range(52)]
                 elif kind == 'call':
                     ok = MessageInterface.parse_bid(line, be.FORMAL[val[0]]) is be.BID[val[1]]
                 elif kind == 'card':
